@@ -60,7 +60,7 @@ theorem runOps_rel (P : Prog) (fuel : Nat) (ops : List Action) {r₁ : Run State
     exact ih ((exec_sim simOK P fuel).1 [] [a] r₁ r₂ h)
 
 theorem init_rel (ne nl : Nat) : RunRel Sim [] (Run.init State.fresh ne nl) (Run.init SState.fresh ne nl) :=
-  ⟨sim_init, ⟨rfl, rfl, rfl, rfl, rfl⟩, rfl, rfl, rfl, rfl⟩
+  ⟨sim_init, ⟨rfl, rfl, rfl, rfl, rfl⟩, rfl, rfl, rfl, rfl, fun hh => hh⟩
 
 /-- what a quiescent state (no emission in progress) looks like -/
 theorem sim_quiescent {m : State} {s : SState} (h : Sim m s []) :
